@@ -141,8 +141,18 @@ def tokAtom (ty : Ty) : Tok → R Atom
       | some isInt =>
         match ty with
         | .float => (castFloat t).map Atom.num
-        | .int => if isInt then (castInt t).bind int64Atom else .error .unsupported
+        | .int => if isInt then (castInt t).bind int64Atom else .error .fail   -- a float literal is not an integer
         | _ => .error .unsupported
+
+/-- the same on a JSON cell of a table column: there numpy still truncates float literals of an int
+    column (`TableNode.parse` hands over parsed lists, not text) — not modelled -/
+def tokAtomCell (ty : Ty) (tok : Tok) : R Atom :=
+  match ty, tok with
+  | .int, .bare t =>
+    (match jsonNumber t with
+     | some false => .error .unsupported
+     | _ => tokAtom ty tok)
+  | _, _ => tokAtom ty tok
 
 /-- the shape tests of `cast_value` -/
 def checkDims : List Dim → List Nat → Bool
@@ -196,7 +206,7 @@ def castCellsGen (inner : Bool) (ty : Ty) (cells : List Str) : R Val :=
     | [] => .error .unsupported
     | (sh0, _) :: _ =>
       if ps.any (fun p => p.1 != sh0) then .error .fail else do
-      let el ← (ps.flatMap (fun p => p.2)).mapM (tokAtom ty)
+      let el ← (ps.flatMap (fun p => p.2)).mapM (tokAtomCell ty)
       .ok (.array (cells.length :: sh0) el)
 
 /-! ### `TableNode.parse` -/
